@@ -75,6 +75,17 @@ func (x *xts) CryptBlocks(dst, src []byte) {
 			encryptSm4Xts(&x.b.enc[0], &x.tweak, dst, src)
 		}
 	} else {
+		if r := len(src) % BlockSize; r != 0 && len(src) > 2*BlockSize {
+			// The bulk loops of the assembly must not consume the last full block: it is needed for
+			// ciphertext stealing. Process everything before it first, the tweak is carried over.
+			n := len(src) - r - BlockSize
+			if x.isGB {
+				decryptSm4XtsGB(&x.b.dec[0], &x.tweak, dst[:n], src[:n])
+			} else {
+				decryptSm4Xts(&x.b.dec[0], &x.tweak, dst[:n], src[:n])
+			}
+			dst, src = dst[n:], src[n:]
+		}
 		if x.isGB {
 			decryptSm4XtsGB(&x.b.dec[0], &x.tweak, dst, src)
 		} else {
